@@ -151,6 +151,13 @@ def stepX (limit : Nat) (line : String) : String :=
       let (rs, _) := readPipe limit (chunkBy (2 * wire.length + 2) sz sz wire)
       s!"sent={sent} wire={wire.length}:{adler32 wire} got={showFrames rs}"
     | _, _, _ => "bad-op"
+  | ["rpipe", hs, sizes] =>
+    -- the real `readPipe` on an arbitrary stream
+    match ofHex hs, csvNat sizes with
+    | some bs, some sz =>
+      let (rs, _) := readPipe limit (chunkBy (2 * bs.length + 2) sz sz bs)
+      s!"got={showFrames rs}"
+    | _, _ => "bad-op"
   | ["wr2", pa, pb, ka, kb, order] =>
     match ofHex pa, ofHex pb, csvNat ka, csvNat kb with
     | some pa, some pb, some ka, some kb =>
